@@ -9,6 +9,7 @@ CONSTANTS
   Confs <- ConfsAll
   Stores <- StoresAll
   Ancs <- AncsAll
+  SrcPorts <- SrcPortsAll
   RestoreAtTop = TRUE
-CONSTRAINTS EnvDeep
+CONSTRAINTS EnvDeep PortsExh
 INVARIANTS ReplyIffValid ExactlyOne ToSender ReplyHeader NeverAnswersReply BoundedTraffic HistoryIndependence StoreSane
